@@ -25,6 +25,9 @@ def run(ctx):
         for cc in ('/usr/bin/gcc', '/usr/bin/clang'):
             res = sysmon.st.run_fault_histories(sysmon.sysroot(ctx, 'c09'), 'c09' + os.path.basename(cc), cc, ctx.seed * 13, nh if cc.endswith('gcc') else max(1, nh // 2), nr)
             sysmon.feed(ctx, res, findings, f'system faults {os.path.basename(cc)}')
+        res = sysmon.st.run_mode_flip(sysmon.sysroot(ctx, 'c09mf'), 'c09mf', '/usr/bin/gcc')
+        if not res['flipped']: ctx.broken.append('mode-flip witness: no zip directory entry named obj found in the stored entry (the entry format changed)')
+        sysmon.feed(ctx, res, findings, 'system witness: permission bits of a stored output flipped')
         res = sysmon.st.run_evict_undeletable(sysmon.sysroot(ctx, 'c09ev'), 'c09ev', '/usr/bin/gcc')
         sysmon.feed(ctx, res, findings, 'system entry that cannot be evicted')
         # "... the cache being read-only ...": histories against a pre-populated read-only cache (half of them with damaged entries and a header
